@@ -12,7 +12,7 @@ MOVES = {"SIR": [["S", "I"], ["I", "R"]], "SIS": [["S", "I"], ["I", "S"]]}
 
 
 def scenarios(tier, seed):
-    fam = simruns.graph_family(seed, 40 if tier == "quick" else 200, max_n=9 if tier == "quick" else 14)
+    fam = simruns.graph_family(seed, 80 if tier == "quick" else 200, max_n=11 if tier == "quick" else 14)
     out = []
     seeds = [1, 2, 3] if tier == "quick" else [1, 2, 3, 4, 5, 6]
     for gi, (n, edges) in enumerate(fam):
@@ -46,7 +46,7 @@ def scenarios(tier, seed):
     # generic simulators: multi-status models, all statuses or only a subset of them reported
     from harness import contagion
     grng = pyrandom.Random(seed + 1010)
-    for k in range(120 if tier == "quick" else 1200):
+    for k in range(300 if tier == "quick" else 1200):
         mname = grng.choice(["SIRS", "SEIR", "SIRV", "compete", "cooperate", "SIR"])
         sts = contagion.MODELS[mname][0]
         n = grng.randint(3, 7)
@@ -63,7 +63,7 @@ def scenarios(tier, seed):
                     "tmin": grng.choice([0, 1.5]), "seed": k, "init_kw": {}})
     # table-driven event-driven SIR with ties, zero and infinite values and horizons that coincide with event times
     from harness import event_scn
-    for k, es in enumerate(event_scn.sir_scenarios(seed + 10, 400 if tier == "quick" else 4000, exhaustive2=False)):
+    for k, es in enumerate(event_scn.sir_scenarios(seed + 10, 1000 if tier == "quick" else 4000, exhaustive2=False)):
         out.append({"sim": "fast_nonMarkov_SIR(table rules)", "ties": es, "n": es["n"], "init_kw": {"initial_recovereds": 1} if "R" in es["init"] else {},
                     "tmin": es["tmin"], "seed": k})
     return out
